@@ -144,8 +144,12 @@ def image(case):
     return bytes(img)
 
 
-def check_case(case, res):
+def check_case(case, res, prior=None):
+    """prior: another image the same Terminal object has read before (the
+    terminal was re-flashed or swapped): nothing of it may survive"""
     img = image(case)
+    if prior is not None:
+        case = dict(case, prior=prior)
     brng = random.Random(case["busyseed"])
     t = bus.SimTerminal("T", eeprom=img, station=33,
                         eeprom_8byte=case["eight"])
@@ -178,6 +182,11 @@ def check_case(case, res):
         term = Terminal(ec)
         term.position = 33
         term.mbx_lock = ec.get_mbx_lock(33)
+        if prior is not None:
+            t.eeprom = bytearray(image(prior))
+            await term.read_eeprom()
+            t.eeprom = bytearray(img)
+            res.count("rereads_on_the_same_terminal_object")
         await term.read_eeprom()
         got = dict(ident=[term.vendorId, term.productCode, term.revisionNo,
                           term.serialNo],
@@ -272,13 +281,16 @@ def run_shard(params):
     res = Result()
     rng = random.Random(params["seed"] * 100237 + params["shard"])
     for i in range(params["n"]):
-        check_case(gen_case(rng, with_mailbox=(i % 4 == 3)), res)
+        case = gen_case(rng, with_mailbox=(i % 4 == 3))
+        prior = gen_case(rng, with_mailbox=False) if i % 3 == 1 else None
+        check_case(case, res, prior=prior)
     return res
 
 
 def finalize(res, tier, seed):
     c = res.counters
     for k in ("images_8byte", "images_4byte", "pdo_sets_sdo",
+              "rereads_on_the_same_terminal_object",
               "pdo_sets_eeprom", "sync_manager_sets"):
         if not c.get(k):
             res.inconc(f"{k} never exercised")
@@ -286,5 +298,5 @@ def finalize(res, tier, seed):
 
 def replay(v):
     res = Result()
-    check_case(v["case"], res)
+    check_case(v["case"], res, prior=v["case"].get("prior"))
     return res
